@@ -87,9 +87,11 @@ claim("C15", CONC,
       "Trusted lemma (not checked): mutual exclusion + the sequential contract of each critical section imply that every target is handed out exactly once and exhaustion is reported to every later caller; data races inside bufio/os are the stubs' business. Stated assumption: fewer than 2^63 draws.",
       "DESIGN.md 8/C15")
 
-claim("C18", PROOF,
-      "Proof (sequential part): firstOfEachIPFamily returns at most one address per IP family, each the first of its family in the input, and modifies nothing: the frame obligation 'no element of the (cache-owned) input slice changes' is discharged for all inputs.",
-      "Trusted: go/ssa builder, govc, solvers, assumed contracts of net.ParseIP / net.IP.To4 (uninterpreted isIP/isV4).",
+claim("C18", CONC,
+      "Proof for all inputs/schedules: firstOfEachIPFamily returns at most one address per IP family, each the first of its family, and modifies nothing (frame: no element of the cache-owned input slice changes); the DNSCaching dial function never writes to the slice handed out by the DNS cache -- also not inside the shuffle callback, which is executed symbolically for arbitrary indices -- shuffles before picking, uses the random generator only with rngMu held, dials JoinHostPort(picked ip, original port) and receives exactly one result per started dial; "
+      "the ConnectTo dial function forwards unmapped addresses unchanged, sends the n-th dial of a mapped address to addrs[n mod k] (lemma rotation_period: even rotation) and touches the rotation counter only through one atomic add (declared atomic: any plain access fails a lock obligation); the custom resolver's address() rotates the same way.",
+      "Trusted: stubs for net.ParseIP/To4/SplitHostPort/JoinHostPort, dnscache.LookupHost (returns cache-owned, non-fresh memory), math/rand.Shuffle (calls swap with in-range indices any number of times), context, sync/atomic; composition lemma for concurrent dials (mutex/atomic semantics). "
+      "Not covered: that the shuffled slice is a permutation (so 'dials go to a currently resolved address' rests on the stub), uniformity of math/rand, dnscache internals, happy-eyeballs timing, the order of option composition in the command.",
       "DESIGN.md 8/C18")
 
 for p in ["C07","C08","C09","C16","C17"]:
